@@ -353,6 +353,17 @@ func (r *Resolver) Resolve(ctx context.Context, name string) (ResolveResult, err
 		svcbName = fmt.Sprintf("_%s.%s", scheme, name)
 	}
 
+	// The query name built from the port and the scheme must be a valid
+	// DNS name too.
+	if len(svcbName) > 255 {
+		return result, ErrInvalidName
+	}
+	for _, p := range strings.Split(svcbName, ".") {
+		if len(p) > 63 {
+			return result, ErrInvalidName
+		}
+	}
+
 	// First, resolve HTTPS Aliases.
 	want := svcbName
 	seen := make(map[string]bool)
